@@ -55,7 +55,27 @@ impl Check for C18 {
 }
 
 fn bad_axis<T: Flt>(src: &mut Src, n: usize) -> (Vec<T>, &'static str) {
-    let mut v: Vec<T> = (0..n).map(|i| T::of(i as f64 * 0.5 - 1.0)).collect();
+    // half of the invalid axes look like the default index axis 0, 1, .., n-1 at both ends
+    let index_like = src.bool();
+    let mut v: Vec<T> = (0..n).map(|i| if index_like { T::of(i as f64) } else { T::of(i as f64 * 0.5 - 1.0) }).collect();
+    if index_like && n >= 4 {
+        let p = 1 + src.below(n as u64 - 2) as usize;
+        return match src.below(3) {
+            0 => {
+                v[p] = v[p - 1];
+                (v, "axis-tie/index-like")
+            }
+            1 => {
+                let p = p.clamp(2, n - 2);
+                v.swap(p, p - 1);
+                (v, "axis-swap/index-like")
+            }
+            _ => {
+                v[p] = T::nan();
+                (v, "axis-nan/index-like")
+            }
+        };
+    }
     match src.below(4) {
         0 => {
             v.push(T::of(n as f64));
